@@ -70,3 +70,42 @@ def k1(ctx):
                 "distinct_nontrivial": len([d for d in distinct if "=true" in d or "PANIC" in d]),
                 "stats": stats, "n_disagreements": len(dis), "disagreements": dis[:20]}
     return ctx.stage("k1", run)
+
+
+def k2(ctx):
+    """stack-depth profile: Go frames at every callback (runtime.Callers) vs machine transitions"""
+    def run():
+        h = stages.harness_stage(ctx)
+        if not h["ok"]:
+            return {"ok": False, "broken": "harness build failed", "detail": h["output"], "disagreements": []}
+        wd = ctx.workdir("k2")
+        rc, out = sh([h["bin"], "k2", "-out", wd, "-tier", ctx.tier, "-seed", str(ctx.seed)], env=GOENV, timeout=3600)
+        if rc != 0:
+            return {"ok": False, "broken": "implementation run crashed", "detail": out[-3000:], "crash": True, "disagreements": []}
+        rc, err = stages.drive(os.path.join(wd, "req.txt"), os.path.join(wd, "lean.txt"))
+        if rc != 0:
+            return {"ok": False, "broken": "lean driver failed", "detail": err, "disagreements": []}
+        reqs = open(os.path.join(wd, "req.txt")).read().split("\n")
+        gos = open(os.path.join(wd, "go.txt")).read().split("\n")
+        les = open(os.path.join(wd, "lean.txt")).read().split("\n")
+        import re
+        dis, n, distinct = [], 0, set()
+
+        def maxdepth(s):
+            ds = [int(x) for x in re.findall(r"@(\d+)", s)]
+            return max(ds) if ds else 0
+        for rq, g, l in zip(reqs, gos, les):
+            if not rq:
+                continue
+            n += 1
+            distinct.add(g)
+            if g != l:
+                dis.append({"request": rq, "impl": g[:600], "model": l[:600], "size": len(rq),
+                            # more stack than the model allows = a failing input for C17
+                            "impl_deeper": maxdepth(g) > maxdepth(l)})
+        dis.sort(key=lambda d: d["size"])
+        rc, growth = sh([h["bin"], "k2-growth", "1000"], env=GOENV, timeout=600)
+        return {"ok": not dis, "evaluations": n, "histories": n, "distinct_nontrivial": len(distinct),
+                "n_disagreements": len(dis), "disagreements": dis[:20], "growth_witness": growth.strip(),
+                "samples": [f"{r} => {g[:200]}" for r, g in list(zip(reqs, gos))[100:103]]}
+    return ctx.stage("k2", run)
